@@ -80,27 +80,29 @@ def ShowsDelivered (c c' : Chain) (b : Block) (p : Node) : Prop :=
 
 theorem dlv_old (hb : getNode c b.id = none) (hp : getNode c b.parent = some p) (sd : ShowsDelivered c c' b p) :
     ∀ x n, getNode c x = some n → ∃ n', getNode c' x = some n' ∧ n'.parent = n.parent ∧ n'.height = n.height ∧
-      n'.bits = n.bits := by
+      n'.bits = n.bits ∧ n'.txCount = n.txCount := by
   intro x n h
   have hx : x ≠ b.id := by intro e; rw [e, hb] at h; cases h
   rw [sd.2, if_neg hx]
   by_cases hxp : x = b.parent
-  · rw [if_pos hxp]; rw [hxp, hp] at h; cases h; exact ⟨_, rfl, rfl, rfl, rfl⟩
-  · rw [if_neg hxp]; exact ⟨n, h, rfl, rfl, rfl⟩
+  · rw [if_pos hxp]; rw [hxp, hp] at h; cases h; exact ⟨_, rfl, rfl, rfl, rfl, rfl⟩
+  · rw [if_neg hxp]; exact ⟨n, h, rfl, rfl, rfl, rfl⟩
 
 theorem dlv_back (hp : getNode c b.parent = some p) (sd : ShowsDelivered c c' b p) :
-    ∀ x n', getNode c' x = some n' → x ≠ b.id → ∃ n, getNode c x = some n := by
+    ∀ x n', getNode c' x = some n' → x ≠ b.id → ∃ n, getNode c x = some n ∧ n'.txCount = n.txCount := by
   intro x n' h hx
   rw [sd.2, if_neg hx] at h
   by_cases hxp : x = b.parent
-  · exact ⟨p, by rw [hxp]; exact hp⟩
-  · rw [if_neg hxp] at h; exact ⟨n', h⟩
+  · rw [if_pos hxp] at h; cases h; exact ⟨p, by rw [hxp]; exact hp, rfl⟩
+  · rw [if_neg hxp] at h; exact ⟨n', h, rfl⟩
 
 theorem dlv_W_old (w : TreeWF U c) (hb : getNode c b.id = none) (hp : getNode c b.parent = some p)
     (sd : ShowsDelivered c c' b p) {x : Nat} {n n' : Node} (hn : getNode c x = some n) (hn' : getNode c' x = some n') :
     W c' n' = W c n := by
   unfold W
-  rw [workOf_congr w sd.1 (dlv_old hb hp sd) n.height x n n' hn hn' rfl]
+  rw [workOf_congr w sd.1 (fun x n h => by
+    obtain ⟨m, a1, a2, a3, a4, _⟩ := dlv_old hb hp sd x n h
+    exact ⟨m, a1, a2, a3, a4⟩) n.height x n n' hn hn' rfl]
 
 theorem dlv_new (sd : ShowsDelivered c c' b p) : getNode c' b.id = some (newNode b p) := by
   rw [sd.2, if_pos rfl]
@@ -127,12 +129,12 @@ theorem maxW_keep (w : TreeWF U c) (hb : getNode c b.id = none) (hp : getNode c 
   obtain ⟨t, ht, hmax⟩ := hm
   obtain ⟨t', ht', _⟩ := dlv_old hb hp sd _ _ ht
   refine ⟨t', by rw [htip]; exact ht', ?_⟩
-  intro x n' hn'
+  intro x n' hn' hd'
   by_cases hx : x = b.id
   · rw [hx, dlv_new sd] at hn'; cases hn'; exact hle t' ht'
-  · obtain ⟨n, hn⟩ := dlv_back hp sd x n' hn' hx
+  · obtain ⟨n, hn, htx⟩ := dlv_back hp sd x n' hn' hx
     rw [dlv_W_old w hb hp sd hn hn', dlv_W_old w hb hp sd ht ht']
-    exact hmax x n hn
+    exact hmax x n hn (by unfold HasData at hd' ⊢; rw [← sd.1, ← htx]; exact hd')
 
 /-- the delivered block became the tip and has at least the work of the old tip: it is a maximum-work node -/
 theorem maxW_new (w : TreeWF U c) (hb : getNode c b.id = none) (hp : getNode c b.parent = some p)
@@ -141,11 +143,11 @@ theorem maxW_new (w : TreeWF U c) (hb : getNode c b.id = none) (hp : getNode c b
   obtain ⟨t, ht, hmax⟩ := hm
   obtain ⟨t', ht', _⟩ := dlv_old hb hp sd _ _ ht
   refine ⟨newNode b p, by rw [htip]; exact dlv_new sd, ?_⟩
-  intro x n' hn'
+  intro x n' hn' hd'
   by_cases hx : x = b.id
   · rw [hx, dlv_new sd] at hn'; cases hn'; exact le_refl _
-  · obtain ⟨n, hn⟩ := dlv_back hp sd x n' hn' hx
-    have h1 := hmax x n hn
+  · obtain ⟨n, hn, htx⟩ := dlv_back hp sd x n' hn' hx
+    have h1 := hmax x n hn (by unfold HasData at hd' ⊢; rw [← sd.1, ← htx]; exact hd')
     rw [← dlv_W_old w hb hp sd hn hn', ← dlv_W_old w hb hp sd ht ht'] at h1
     exact le_trans h1 (hge t' ht')
 
@@ -196,6 +198,11 @@ structure Inv (U : List Block) (c : Chain) : Prop where
   path : ∃ path, PathOKH c 0 path ∧ Ext c path
   maxw : MaxW c
 
+/-- every node after the delivery is the delivered block with its transaction count, or a node from before with the
+    transaction count it had: a delivery creates no other node and gives no other node data -/
+def NodesFrom (c : Chain) (b : Block) (c' : Chain) : Prop :=
+  ∀ x n', getNode c' x = some n' → (x = b.id ∧ n'.txCount = b.txs.length) ∨ (∃ n, getNode c x = some n ∧ n'.txCount = n.txCount)
+
 /-- what one delivery may lose, and what becomes of the delivered block: every node that disappears is excused (it or
     an ancestor fails when connected on its own branch), and the delivered block itself is a node afterwards unless it
     was turned away as an orphan / too deep, or is excused -/
@@ -216,14 +223,15 @@ theorem newNode_ok (b : Block) (p : Node) (hp : p.id = b.parent) :
 theorem deliver_side {U : List Block} {c : Chain} (w : TreeWF U c) {path : List PE} (hpo : PathOKH c 0 path)
     (hx : Ext c path)
     (hm : MaxW c) (hU : BlockTree c.root U) (b : Block) (hbU : b ∈ U) (p : Node)
-    (hb : getNode c b.id = none) (hp : getNode c b.parent = some p) (hside : c.tip ≠ b.parent) (h : Nat) :
+    (hb : getNode c b.id = none) (hp : getNode c b.parent = some p) (hpd : HasData c b.parent p)
+    (hside : c.tip ≠ b.parent) (h : Nat) :
     Inv U (commitBlock (accepted c b p) b h).1 ∧ (commitBlock (accepted c b p) b h).1.root = c.root ∧
     (∀ s, (commitBlock (accepted c b p) b h).2 ≠ Outcome.panic s) ∧
     ((commitBlock (accepted c b p) b h).1.tip = c.tip ∨ (commitBlock (accepted c b p) b h).1.tip = b.id ∨
       (commitBlock (accepted c b p) b h).2 = Outcome.moveFailed) ∧
     (∀ t, getNode c c.tip = some t → W c p + (difficulty b.bits).val ≤ W c t →
       (commitBlock (accepted c b p) b h).1.tip = c.tip) ∧
-    DeliveryComplete U c b (commitBlock (accepted c b p) b h) := by
+    DeliveryComplete U c b (commitBlock (accepted c b p) b h) ∧ NodesFrom c b (commitBlock (accepted c b p) b h).1 := by
   have hns : alookup b.id c.store = none := by
     cases hh : alookup b.id c.store with
     | none => rfl
@@ -232,7 +240,7 @@ theorem deliver_side {U : List Block} {c : Chain} (w : TreeWF U c) {path : List 
   have sd : ShowsDelivered c (stored c b p) b p :=
     ⟨rfl, fun x => (getNode_nodes (c := delivered c b p) (c' := stored c b p) rfl x).trans (getNode_delivered c b p hb hp x)⟩
   have w1 : TreeWF U (stored c b p) := by
-    refine TreeWF_delivered w b hbU p (newNode b p) hb hp (newNode_ok b p hpid) sd.1 sd.2 ?_
+    refine TreeWF_delivered w b hbU p (newNode b p) hb hp (newNode_ok b p hpid) (hU.txs b hbU) hpd sd.1 sd.2 ?_
     intro k
     show Option.map (·.txs) (alookup k (aset b.id { txs := b.txs, trusted := false } c.store)) = _
     rw [alookup_aset_eq]
@@ -259,6 +267,14 @@ theorem deliver_side {U : List Block} {c : Chain} (w : TreeWF U c) {path : List 
     cases hg : getNode c x with
     | none => rw [hg] at hxs; cases hxs
     | some n => obtain ⟨n', g1, _⟩ := dlv_old hb hp sd x n hg; rw [g1] at hnone; cases hnone
+  have hfrom1 : NodesFrom c b (stored c b p) := by
+    intro x n' hn'
+    by_cases hxb : x = b.id
+    · rw [hxb, dlv_new sd] at hn'; cases hn'; exact Or.inl ⟨hxb, rfl⟩
+    · obtain ⟨n, g1, g2⟩ := dlv_back hp sd x n' hn' hxb
+      exact Or.inr ⟨n, g1, g2⟩
+  have hnewd : HasData (stored c b p) b.id (newNode b p) :=
+    Or.inr (fun h0 => hU.txs b hbU (List.eq_nil_of_length_eq_zero h0))
   have hmp := morePOW_spec w1 hU1 (dlv_new sd) ht'
   rw [commitBlock_side c b p h hside hns, dlv_new sd, ht']
   simp only
@@ -266,7 +282,7 @@ theorem deliver_side {U : List Block} {c : Chain} (w : TreeWF U c) {path : List 
   | false =>
     simp only [Bool.false_eq_true, if_false]
     refine ⟨⟨w1, ⟨path, hp1, hx1⟩, ?_⟩, rfl, (fun s hs => by cases hs), Or.inl rfl, fun _ _ _ => rfl,
-      hlost1, fun hnone => by rw [dlv_new sd] at hnone; cases hnone⟩
+      ⟨hlost1, fun hnone => by rw [dlv_new sd] at hnone; cases hnone⟩, hfrom1⟩
     refine maxW_keep w hb hp sd hm rfl ?_
     intro t2 ht2
     rw [ht'] at ht2; cases ht2
@@ -276,13 +292,19 @@ theorem deliver_side {U : List Block} {c : Chain} (w : TreeWF U c) {path : List 
   | true =>
     simp only [if_true]
     have hgt : W (stored c b p) (newNode b p) > W (stored c b p) t' := hmp.mp hmo
-    obtain ⟨c2, path2, g1, g2, g3, g4, g5, g6, g7⟩ := (reorg_specs U (fuelOf (stored c b p))).2.2 (stored c b p) b.id (newNode b p) path
-      w1 hp1 hx1 hU1 (dlv_new sd) (fuelOf_enough _)
+    obtain ⟨c2, path2, g1, g2, g3, g4, g5, g6, g7, g8⟩ := (reorg_specs U (fuelOf (stored c b p))).2.2 (stored c b p) b.id (newNode b p) path
+      w1 hp1 hx1 hU1 (dlv_new sd) hnewd (fuelOf_enough _)
     rw [g1]
     simp only
     have g7' : Lost U c.root (stored c b p) c2 := g7
+    have hfrom2 : NodesFrom c b c2 := by
+      intro x n2 hn2
+      obtain ⟨n1, k1, k2⟩ := g8 x n2 hn2
+      rcases hfrom1 x n1 k1 with ⟨e1, e2⟩ | ⟨n, e1, e2⟩
+      · exact Or.inl ⟨e1, k2.trans e2⟩
+      · exact Or.inr ⟨n, e1, k2.trans e2⟩
     refine ⟨⟨g2, ⟨path2, g3, g6⟩, ?_⟩, g4, (fun s hs => by split at hs <;> cases hs), ?_, ?_,
-      hlost1.trans g7', fun hnone => Or.inr (Or.inr (g7' b.id (by rw [dlv_new sd]; rfl) hnone))⟩
+      ⟨hlost1.trans g7', fun hnone => Or.inr (Or.inr (g7' b.id (by rw [dlv_new sd]; rfl) hnone))⟩, hfrom2⟩
     rotate_left
     · by_cases hc2 : c2.tip = b.id
       · exact Or.inr (Or.inl hc2)
@@ -360,7 +382,9 @@ theorem deliver_tip {U : List Block} {c : Chain} (w : TreeWF U c) {path : List P
     (∀ s, (commitBlock (accepted c b t) b (path.length + 1)).2 ≠ Outcome.panic s) ∧
     ((commitBlock (accepted c b t) b (path.length + 1)).1.tip = c.tip ∨
       (commitBlock (accepted c b t) b (path.length + 1)).1.tip = b.id) ∧
-    DeliveryComplete U c b (commitBlock (accepted c b t) b (path.length + 1)) := by
+    DeliveryComplete U c b (commitBlock (accepted c b t) b (path.length + 1)) ∧
+    NodesFrom c b (commitBlock (accepted c b t) b (path.length + 1)).1 := by
+  have htd : HasData c b.parent t := by rw [← htip]; exact tip_has_data w hpath ht
   rw [htip] at ht
   have hp := ht
   have hpid : t.id = b.parent := getNode_id hp
@@ -389,7 +413,7 @@ theorem deliver_tip {U : List Block} {c : Chain} (w : TreeWF U c) {path : List P
       ⟨hrt, fun x => (getNode_nodes (c := delivered c b t) hf.2.2.2 x).trans (getNode_delivered c b t hb hp x)⟩
     have w1 : TreeWF U { commitBlockTxs (preCommit (accepted c b t) b) (path.length + 1) true
         (b.txs.map (·.txid)) ch with tip := b.id } := by
-      refine TreeWF_delivered w b hbU t (newNode b t) hb hp (newNode_ok b t hpid) sd.1 sd.2 ?_
+      refine TreeWF_delivered w b hbU t (newNode b t) hb hp (newNode_ok b t hpid) (hU.txs b hbU) htd sd.1 sd.2 ?_
       intro k
       show Option.map (·.txs) (alookup k (commitBlockTxs (preCommit (accepted c b t) b) (path.length + 1) true
         (b.txs.map (·.txid)) ch).store) = _
@@ -416,9 +440,16 @@ theorem deliver_tip {U : List Block} {c : Chain} (w : TreeWF U c) {path : List P
       cases hg : getNode c x with
       | none => rw [hg] at hxs; cases hxs
       | some n => obtain ⟨n', g1, _⟩ := dlv_old hb hp sd x n hg; rw [g1] at hnone; cases hnone
+    have hfrom1 : NodesFrom c b { commitBlockTxs (preCommit (accepted c b t) b) (path.length + 1) true
+        (b.txs.map (·.txid)) ch with tip := b.id } := by
+      intro x n' hn'
+      by_cases hxb : x = b.id
+      · rw [hxb, dlv_new sd] at hn'; cases hn'; exact Or.inl ⟨hxb, rfl⟩
+      · obtain ⟨n, g1, g2⟩ := dlv_back hp sd x n' hn' hxb
+        exact Or.inr ⟨n, g1, g2⟩
     refine ⟨⟨w1, ⟨_, ⟨hcp, newNode b t, dlv_new sd, by simp only [List.length_cons]; show t.height + 1 = _; omega⟩, hx1⟩, ?_⟩,
       hrt, (fun s hs => by cases hs), Or.inr rfl,
-      hlost1, fun hnone => by rw [dlv_new sd] at hnone; cases hnone⟩
+      ⟨hlost1, fun hnone => by rw [dlv_new sd] at hnone; cases hnone⟩, hfrom1⟩
     refine maxW_new w hb hp sd hm rfl ?_
     intro t2 ht2
     have hw := dlv_W_new w w1 hU hb hp sd
@@ -442,49 +473,52 @@ theorem deliver_tip {U : List Block} {c : Chain} (w : TreeWF U c) {path : List P
     refine ⟨⟨w1, ⟨path, ⟨hp1, t, by show getNode _ b.parent = some t; rw [hg]; exact hp, hth⟩,
         hx.of_store_eq (c' := rejectedChain (accepted c b t) b) rfl⟩, ?_⟩, hr,
       (fun s hs => by cases hs), Or.inl htip.symm,
-      Lost.of_getNode hg, fun _ => Or.inr (Or.inr ⟨b, hbU, UAnc.refl, hinv⟩)⟩
+      ⟨Lost.of_getNode hg, fun _ => Or.inr (Or.inr ⟨b, hbU, UAnc.refl, hinv⟩)⟩,
+      fun x n' hn' => Or.inr ⟨n', by rw [← hg]; exact hn', rfl⟩⟩
     obtain ⟨t0, ht0, hmax⟩ := hm
-    refine ⟨t0, by show getNode _ b.parent = some t0; rw [hg, ← htip]; exact ht0, fun x n hn => ?_⟩
+    refine ⟨t0, by show getNode _ b.parent = some t0; rw [hg, ← htip]; exact ht0, fun x n hn hd => ?_⟩
     rw [W_same hr hg, W_same hr hg]
-    exact hmax x n (by rw [← hg]; exact hn)
+    exact hmax x n (by rw [← hg]; exact hn) hd
 
 /-- **one delivery keeps the whole invariant and does not panic** — any block of the block tree, in any state reached:
     duplicate, orphan, too deep below the tip, tip extension (accepted or rejected), side block (stored aside, or
     reorganised to: completely, or with a failure and the fall-back to the best remaining node). -/
-theorem deliver_inv {U : List Block} {c : Chain} (hi : Inv U c) (hU : BlockTree c.root U) (b : Block) (hbU : b ∈ U) :
+theorem deliver_inv {U : List Block} {c : Chain} (hi : Inv U c) (hU : BlockTree c.root U) (b : Block) (hbU : b ∈ U)
+    (hpd : ∀ p, getNode c b.parent = some p → HasData c b.parent p) :
     Inv U (deliver c b).1 ∧ (deliver c b).1.root = c.root ∧ (∀ s, (deliver c b).2 ≠ Outcome.panic s) ∧
     ((deliver c b).1.tip = c.tip ∨ (deliver c b).1.tip = b.id ∨ (deliver c b).2 = Outcome.moveFailed) ∧
-    DeliveryComplete U c b (deliver c b) := by
+    DeliveryComplete U c b (deliver c b) ∧ NodesFrom c b (deliver c b).1 := by
   obtain ⟨w, ⟨path, hpo, hx⟩, hm⟩ := hi
   obtain ⟨hpath, t, ht, hth⟩ := hpo
   have same : Lost U c.root c c := Lost.of_getNode (fun _ => rfl)
+  have sameN : NodesFrom c b c := fun x n' hn' => Or.inr ⟨n', hn', rfl⟩
   cases hb : getNode c b.id with
   | some n0 =>
     have : deliver c b = (c, Outcome.dup) := by unfold deliver; simp [hb]
     rw [this]; exact ⟨⟨w, ⟨path, ⟨hpath, t, ht, hth⟩, hx⟩, hm⟩, rfl, (fun s hs => by cases hs), Or.inl rfl,
-      same, fun hnone => by rw [hb] at hnone; cases hnone⟩
+      ⟨same, fun hnone => by rw [hb] at hnone; cases hnone⟩, sameN⟩
   | none =>
     cases hp : getNode c b.parent with
     | none =>
       have : deliver c b = (c, Outcome.later) := by unfold deliver; simp [hb, hp]
       rw [this]; exact ⟨⟨w, ⟨path, ⟨hpath, t, ht, hth⟩, hx⟩, hm⟩, rfl, (fun s hs => by cases hs), Or.inl rfl,
-        same, fun _ => Or.inl rfl⟩
+        ⟨same, fun _ => Or.inl rfl⟩, sameN⟩
     | some p =>
       cases hdeep : (p.id != t.id && decide (t.height ≥ p.height + 1 + MovingCheckpointDepth)) with
       | true =>
         have : deliver c b = (c, Outcome.tooDeep) := by
           unfold deliver deliverAt; simp only [hb, Option.isSome_none, Bool.false_eq_true, if_false, hp, ht, hdeep, if_true]
         rw [this]; exact ⟨⟨w, ⟨path, ⟨hpath, t, ht, hth⟩, hx⟩, hm⟩, rfl, (fun s hs => by cases hs), Or.inl rfl,
-          same, fun _ => Or.inr (Or.inl rfl)⟩
+          ⟨same, fun _ => Or.inr (Or.inl rfl)⟩, sameN⟩
       | false =>
         rw [deliver_eq c b p t hb hp ht hdeep]
         by_cases htip : c.tip = b.parent
         · rw [← htip, ht] at hp; cases hp
           rw [hth]
-          obtain ⟨h1, h2, h3, h4, h5⟩ := deliver_tip w hpath hx t ht hth hm hU b hbU hb htip
-          exact ⟨h1, h2, h3, h4.elim Or.inl (fun h => Or.inr (Or.inl h)), h5⟩
-        · obtain ⟨h1, h2, h3, h4, _, h6⟩ := deliver_side w ⟨hpath, t, ht, hth⟩ hx hm hU b hbU p hb hp htip (p.height + 1)
-          exact ⟨h1, h2, h3, h4, h6⟩
+          obtain ⟨h1, h2, h3, h4, h5, h6⟩ := deliver_tip w hpath hx t ht hth hm hU b hbU hb htip
+          exact ⟨h1, h2, h3, h4.elim Or.inl (fun h => Or.inr (Or.inl h)), h5, h6⟩
+        · obtain ⟨h1, h2, h3, h4, _, h6, h7⟩ := deliver_side w ⟨hpath, t, ht, hth⟩ hx hm hU b hbU p hb hp (hpd p hp) htip (p.height + 1)
+          exact ⟨h1, h2, h3, h4, h6, h7⟩
 
 /-- the initial state satisfies the invariant -/
 theorem init_inv (U : List Block) (r bits : Nat) (hbits : bits % 0x1000000 ≠ 0) : Inv U (ChainTree.init r bits) := by
@@ -504,7 +538,7 @@ theorem init_inv (U : List Block) (r bits : Nat) (hbits : bits % 0x1000000 ≠ 0
     by_cases hx : r = x
     · exact hx.symm
     · rw [if_neg hx] at h; cases h
-  refine ⟨⟨⟨_, hroot, rfl, hbits⟩, ?_, ?_, ?_, ?_⟩,
+  refine ⟨⟨⟨_, hroot, rfl, hbits⟩, ?_, ?_, ?_, ?_, ?_, ?_⟩,
     ⟨[], init_pathH r bits, Ext.mk (fun k s h _ => by cases h) (fun e he => by cases he)⟩, ?_⟩
   · intro x n h hx; exact absurd (only x n h) hx
   · intro y p h x hx
@@ -512,23 +546,46 @@ theorem init_inv (U : List Block) (r bits : Nat) (hbits : bits % 0x1000000 ≠ 0
     subst this
     rw [hroot] at h; cases h; cases hx
   · intro x n h hx; exact absurd (only x n h) hx
+  · intro x n _ _; rfl
+  · intro x n h hx; exact absurd (only x n h) hx
   · intro k s h; cases h
   · refine ⟨_, hroot, ?_⟩
-    intro x n h
+    intro x n h _
     have := only x n h
     subst this
     rw [hroot] at h; cases h; exact le_refl _
 
+/-- every node has its data (no header-only node): the state of a chain that was only ever fed whole blocks -/
+def AllData (c : Chain) : Prop := ∀ x n, getNode c x = some n → HasData c x n
+
+theorem init_allData (r bits : Nat) : AllData (ChainTree.init r bits) := by
+  intro x n h
+  left
+  simp only [getNode, ChainTree.init, List.find?_cons, List.find?_nil] at h
+  split at h
+  · next he => simpa using he.symm
+  · cases h
+
+theorem AllData.deliver {U : List Block} {c : Chain} (ha : AllData c) (hU : BlockTree c.root U) (b : Block) (hbU : b ∈ U)
+    {c' : Chain} (hr : c'.root = c.root) (hf : NodesFrom c b c') : AllData c' := by
+  intro x n' hn'
+  rcases hf x n' hn' with ⟨_, e2⟩ | ⟨n, e1, e2⟩
+  · right; rw [e2]; intro h0; exact hU.txs b hbU (List.eq_nil_of_length_eq_zero h0)
+  · have := ha x n e1
+    unfold HasData at this ⊢
+    rw [hr, e2]; exact this
+
 /-- **the invariant holds after every sequence of deliveries drawn from the block tree, and no delivery panics** -/
-theorem deliver_all_inv {U : List Block} (ds : List Block) : ∀ (c : Chain), Inv U c → BlockTree c.root U →
+theorem deliver_all_inv {U : List Block} (ds : List Block) : ∀ (c : Chain), Inv U c → AllData c → BlockTree c.root U →
     (∀ b ∈ ds, b ∈ U) →
     Inv U (ds.foldl (fun c b => (deliver c b).1) c) ∧ (ds.foldl (fun c b => (deliver c b).1) c).root = c.root := by
   induction ds with
-  | nil => intro c hi _ _; exact ⟨hi, rfl⟩
+  | nil => intro c hi _ _ _; exact ⟨hi, rfl⟩
   | cons b bs ih =>
-    intro c hi hU hin
-    obtain ⟨h1, h2, _, _, _⟩ := deliver_inv hi hU b (hin b List.mem_cons_self)
-    obtain ⟨h3, h4⟩ := ih (deliver c b).1 h1 (by rw [h2]; exact hU) (fun x hx => hin x (List.mem_cons_of_mem _ hx))
+    intro c hi ha hU hin
+    obtain ⟨h1, h2, _, _, _, h6⟩ := deliver_inv hi hU b (hin b List.mem_cons_self) (fun p hp => ha _ p hp)
+    obtain ⟨h3, h4⟩ := ih (deliver c b).1 h1 (ha.deliver hU b (hin b List.mem_cons_self) h2 h6) (by rw [h2]; exact hU)
+      (fun x hx => hin x (List.mem_cons_of_mem _ hx))
     exact ⟨h3, h4.trans h2⟩
 
 theorem foldl_deliverG_fst (ds : List Block) : ∀ (s : Chain × List Nat),
@@ -539,9 +596,10 @@ theorem foldl_deliverG_fst (ds : List Block) : ∀ (s : Chain × List Nat),
 
 /-- one delivery keeps the completeness of the tree w.r.t. the ghost list of admitted blocks -/
 theorem deliverG_complete {U : List Block} {c : Chain} (hi : Inv U c) (hU : BlockTree c.root U) (b : Block) (hbU : b ∈ U)
+    (hpd : ∀ p, getNode c b.parent = some p → HasData c b.parent p)
     (E : List Nat) (hc : Complete U c.root E c) :
     Complete U c.root (deliverG (c, E) b).2 (deliverG (c, E) b).1 := by
-  obtain ⟨_, _, _, _, hl, hn⟩ := deliver_inv hi hU b hbU
+  obtain ⟨_, _, _, _, ⟨hl, hn⟩, _⟩ := deliver_inv hi hU b hbU hpd
   have old : ∀ x ∈ E, (getNode (deliver c b).1 x).isSome = true ∨ Excused U c.root x := by
     intro x hx
     rcases hc x hx with h | h
@@ -569,26 +627,30 @@ theorem deliverG_complete {U : List Block} {c : Chain} (hi : Inv U c) (hU : Bloc
     · exact old x h2
 
 /-- **after every sequence of deliveries: the invariant, and completeness w.r.t. the blocks admitted on the way** -/
-theorem deliverG_all {U : List Block} (ds : List Block) : ∀ (s : Chain × List Nat), Inv U s.1 → BlockTree s.1.root U →
+theorem deliverG_all {U : List Block} (ds : List Block) : ∀ (s : Chain × List Nat), Inv U s.1 → AllData s.1 →
+    BlockTree s.1.root U →
     (∀ b ∈ ds, b ∈ U) → Complete U s.1.root s.2 s.1 →
     Inv U (ds.foldl deliverG s).1 ∧ (ds.foldl deliverG s).1.root = s.1.root ∧
-      Complete U s.1.root (ds.foldl deliverG s).2 (ds.foldl deliverG s).1 := by
+      Complete U s.1.root (ds.foldl deliverG s).2 (ds.foldl deliverG s).1 ∧ AllData (ds.foldl deliverG s).1 := by
   induction ds with
-  | nil => intro s hi _ _ hc; exact ⟨hi, rfl, hc⟩
+  | nil => intro s hi ha _ _ hc; exact ⟨hi, rfl, hc, ha⟩
   | cons b bs ih =>
-    intro s hi hU hin hc
+    intro s hi ha hU hin hc
     obtain ⟨c, E⟩ := s
-    obtain ⟨h1, h2, _, _, _⟩ := deliver_inv hi hU b (hin b List.mem_cons_self)
-    have hc1 := deliverG_complete hi hU b (hin b List.mem_cons_self) E hc
+    have hpd : ∀ p, getNode c b.parent = some p → HasData c b.parent p := fun p hp => ha _ p hp
+    obtain ⟨h1, h2, _, _, _, h6⟩ := deliver_inv hi hU b (hin b List.mem_cons_self) hpd
+    have hc1 := deliverG_complete hi hU b (hin b List.mem_cons_self) hpd E hc
     have hr : (deliverG (c, E) b).1.root = c.root := h2
-    obtain ⟨h3, h4, h5⟩ := ih (deliverG (c, E) b) h1 (by rw [hr]; exact hU) (fun x hx => hin x (List.mem_cons_of_mem _ hx))
+    have ha1 : AllData (deliverG (c, E) b).1 := AllData.deliver (c := c) ha hU b (hin b List.mem_cons_self) h2 h6
+    obtain ⟨h3, h4, h5, h7⟩ := ih (deliverG (c, E) b) h1 ha1 (by rw [hr]; exact hU) (fun x hx => hin x (List.mem_cons_of_mem _ hx))
       (by rw [hr]; exact hc1)
     simp only [List.foldl_cons]
-    exact ⟨h3, h4.trans hr, by rw [hr] at h5; exact h5⟩
+    exact ⟨h3, h4.trans hr, by rw [hr] at h5; exact h5, h7⟩
 
 /-- **a side block without strictly more work never moves the tip** (ties keep the block that was there first) -/
 theorem deliver_keeps_tip {U : List Block} {c : Chain} (hi : Inv U c) (hU : BlockTree c.root U) (b : Block) (hbU : b ∈ U)
-    (p t : Node) (hb : getNode c b.id = none) (hp : getNode c b.parent = some p) (ht : getNode c c.tip = some t)
+    (p t : Node) (hb : getNode c b.id = none) (hp : getNode c b.parent = some p) (hpd : HasData c b.parent p)
+    (ht : getNode c c.tip = some t)
     (hside : c.tip ≠ b.parent) (hle : ((workOf c p).add (difficulty b.bits)).gt (workOf c t) = false) :
     (deliver c b).1.tip = c.tip := by
   obtain ⟨w, ⟨path, hpo, hx⟩, hm⟩ := hi
@@ -599,7 +661,7 @@ theorem deliver_keeps_tip {U : List Block} {c : Chain} (hi : Inv U c) (hU : Bloc
     rw [this]
   | false =>
     rw [deliver_eq c b p t hb hp ht hdeep]
-    obtain ⟨_, _, _, _, h5, _⟩ := deliver_side w hpo hx hm hU b hbU p hb hp hside (p.height + 1)
+    obtain ⟨_, _, _, _, h5, _⟩ := deliver_side w hpo hx hm hU b hbU p hb hp hpd hside (p.height + 1)
     apply h5 t ht
     have hbits := hU.bits b hbU
     have hd := difficulty_den_pos _ hbits
